@@ -516,7 +516,13 @@ def features_layer(env):
         # 2. the same deterministic workload against tz built with each feature set
         digests = {}
         counts = 0
+        cases_replayed = 0
         n = 40000 if env.quick() else 1500000
+        # cases from the harness' own generators (all zone shapes, tie rules, IANA rules, leap tables)
+        cases_file = os.path.join(env.work, "c19-cases-%d.txt" % os.getpid())
+        gen = run_tzmon(env, profile="release", prop="C19GEN", opts={"out": cases_file}, name="case-generator")
+        if not os.path.exists(cases_file) or gen.get("inconclusive"):
+            raise LayerInconclusive("case generator failed: %s" % gen.get("inconclusive"))
         for name, feat in FEATURE_SETS:
             if not ok[name]:
                 continue
@@ -530,24 +536,31 @@ def features_layer(env):
                 continue
             binary = os.path.join(e["CARGO_TARGET_DIR"], "release", "featcheck")
             for seed in (env.seed, env.seed + 1000):
-                rc, out, err, wall = run([binary, str(seed), str(n), os.path.join(env.corpus, "zoneinfo", "blobs")], timeout=900)
+                rc, out, err, wall = run([binary, str(seed), str(n), os.path.join(env.corpus, "zoneinfo", "blobs"), cases_file], timeout=900)
                 if rc != 0:
                     violations.append(viol("feature configuration: workload crashed", "featcheck %s seed %d" % (name, seed), "exit 0", "exit %s %s" % (rc, err.strip()[-300:]), env.seed))
                     continue
                 for ln in out.splitlines():
-                    kind, dig, cnt = ln.split()
+                    parts = ln.split()
+                    kind, dig, cnt = parts[0], parts[1], parts[2]
                     digests.setdefault((kind, seed), {})[name] = dig
                     counts += int(cnt)
+                    if kind == "cases":
+                        cases_replayed = max(cases_replayed, int(parts[3]))
         for (kind, seed), per in sorted(digests.items()):
             vals = set(per.values())
             if len(vals) > 1:
                 violations.append(viol("feature configurations disagree: the same workload gives different results", "%s workload seed %d" % (kind, seed), "identical digests in %s" % sorted(per.keys()), json.dumps(per, sort_keys=True), env.seed))
-            if kind == "core" and len(per) < 3 and all(ok[n_] for n_, _ in FEATURE_SETS):
+            if kind in ("core", "cases") and len(per) < 3 and all(ok[n_] for n_, _ in FEATURE_SETS):
                 violations.append(viol("feature configuration: core workload missing in a configuration", "seed %d" % seed, "3 digests", json.dumps(per), env.seed))
-        samples = [{"workload": k[0], "seed": k[1], "digests": v} for k, v in sorted(digests.items())][:4]
+        if os.path.exists(cases_file):
+            os.unlink(cases_file)
+        if cases_replayed == 0 and not violations:
+            raise LayerInconclusive("no generated case was replayed")
+        samples = [{"workload": k[0], "seed": k[1], "digests": v} for k, v in sorted(digests.items())][:6]
         return {"name": "feature-matrix", "profile": "release", "evaluations": counts, "distinct_nontrivial": len(digests) * 3, "counts_distinct": True, "violations": violations, "replay_spec": None,
-                "rule": "cases = (feature set, workload, seed): the crate is built with no features, `alloc`, `std`; the core workload (borrowed zones, date-time construction, lookup, find_n, formatting into a fixed buffer; %d iterations x 2 seeds) and the alloc workload (owned zones, TZif and TZ-string parsing, allocating search) are run against each build and their result digests compared. distinct_nontrivial = (workload, seed, feature set) triples whose digest was compared." % n,
-                "extra": {"builds": builds, "digests": {"%s/%d" % k: v for k, v in digests.items()}}, "samples": samples, "inconclusive": [] if counts else ["no workload was executed"]}
+                "rule": "cases = (feature set, workload, seed): the crate is built with no features, `alloc`, `std`; the core workload (borrowed zones, date-time construction, lookup, find_n, formatting into a fixed buffer; %d iterations x 2 seeds) the alloc workload (owned zones, TZif and TZ-string parsing, allocating search) and a replay of zones + queries generated by the harness' own generators (every zone shape, tie rules, IANA rules, leap tables; lookups, from_timespec, project, find_n with buffers of 4 / 1 / 0 slots) are run against each build and their result digests compared. distinct_nontrivial = (workload, seed, feature set) triples whose digest was compared." % n,
+                "extra": {"builds": builds, "generated_cases_replayed_per_build": cases_replayed, "digests": {"%s/%d" % k: v for k, v in digests.items()}}, "samples": samples, "inconclusive": [] if counts else ["no workload was executed"]}
     return f
 
 
@@ -699,3 +712,96 @@ def c09_layers(env):
 reg("C07", c07_layers, ["a clean sanitizer run is not memory safety; tz-rs forbids unsafe code, so the sanitizers are sentinels against a future edit"])
 reg("C08", c08_layers)
 reg("C09", c09_layers)
+
+
+# ------------------------------------------------------------------------------------------------
+# AddressSanitizer slice and (evidence only) llvm-cov region coverage of the anchored sources
+
+def asan_layer(env, scale, prop=None):
+    @layer("asan")
+    def f():
+        tdir = os.path.join(env.harness, "target-asan")
+        try:
+            binary = build_harness(env, "release", toolchain="nightly", rustflags="-Zsanitizer=address -Cforce-frame-pointers=yes", target="x86_64-unknown-linux-gnu", target_dir=tdir)
+        except LayerInconclusive as e:
+            raise LayerInconclusive("AddressSanitizer build unavailable: %s" % str(e)[-300:])
+        e = {"ASAN_OPTIONS": "halt_on_error=1:abort_on_error=0:detect_leaks=1:exitcode=77"}
+        try:
+            r = run_tzmon(env, profile="asan", binary=binary, scale=scale, prop=prop, name="asan", extra_env=e, timeout=3000)
+            r["sanitizer_reports"] = 0
+            r["replay_spec"] = {"kind": "tzmon", "profile": "release", "opts": {}, "tier": env.tier}
+            return r
+        except LayerInconclusive as ex:
+            msg = str(ex)
+            if "AddressSanitizer" in msg or "LeakSanitizer" in msg or "status 77" in msg:
+                return {"name": "asan", "profile": "asan", "evaluations": 0, "sanitizer_reports": 1, "violations": [viol("AddressSanitizer / LeakSanitizer report", "tzmon %s scale %r seed %d" % (prop or env.prop, scale, env.seed), "no heap error, no leak", msg[-500:], env.seed)], "replay_spec": None}
+            raise
+    return f
+
+
+def coverage_layer(env, scale, files):
+    """Which regions of the anchored source files the workload executed. Evidence only: this layer never
+    produces a violation and its failure only makes itself unavailable (skipped), not the check."""
+    @layer("coverage")
+    def f():
+        import glob
+        tools = [d for d in glob.glob(os.path.expanduser("~/.rustup/toolchains/nightly-x86_64*/lib/rustlib/*/bin")) + glob.glob(os.path.expanduser("~/.rustup/toolchains/*/lib/rustlib/*/bin")) if os.path.exists(os.path.join(d, "llvm-profdata")) and os.path.exists(os.path.join(d, "llvm-cov"))]
+        if not tools:
+            raise Skip("llvm-tools (llvm-profdata, llvm-cov) not found")
+        tdir = os.path.join(env.harness, "target-cov")
+        try:
+            binary = build_harness(env, "release", toolchain="nightly", rustflags="-Cinstrument-coverage", target_dir=tdir)
+        except LayerInconclusive as e:
+            raise Skip("coverage build unavailable: %s" % str(e)[-200:])
+        prof = os.path.join(env.work, "cov-%s-%d.profraw" % (env.prop, os.getpid()))
+        data = prof.replace(".profraw", ".profdata")
+        try:
+            r = run_tzmon(env, profile="coverage", binary=binary, scale=scale, name="coverage", extra_env={"LLVM_PROFILE_FILE": prof}, timeout=3000)
+            rc, out, err, _ = run([os.path.join(tools[0], "llvm-profdata"), "merge", "-sparse", prof, "-o", data], timeout=600)
+            if rc != 0:
+                raise Skip("llvm-profdata failed")
+            rc, out, err, _ = run([os.path.join(tools[0], "llvm-cov"), "export", "-summary-only", "-instr-profile", data, binary], timeout=600)
+            if rc != 0:
+                raise Skip("llvm-cov failed")
+            doc = json.loads(out)
+        finally:
+            for p in (prof, data):
+                if os.path.exists(p):
+                    os.unlink(p)
+        cov = {}
+        for fdoc in doc["data"][0]["files"]:
+            name = fdoc["filename"]
+            if "/repo/src/" in name or name.startswith(os.path.join(env.repo, "src")):
+                rel = name.split("/src/", 1)[1]
+                if not files or rel in files:
+                    s = fdoc["summary"]
+                    cov[rel] = {"regions": s["regions"]["count"], "regions_covered": s["regions"]["covered"], "lines": s["lines"]["count"], "lines_covered": s["lines"]["covered"], "functions": s["functions"]["count"], "functions_covered": s["functions"]["covered"]}
+        r["violations"] = []  # the oracle verdict belongs to the native layers; this layer only measures reach
+        r["violations_total"] = 0
+        r["inconclusive"] = []
+        r["extra"] = {"region_coverage_of_anchored_sources": cov}
+        r["replay_spec"] = None
+        r["samples"] = [{"file": k, "regions_covered": "%d/%d" % (v["regions_covered"], v["regions"])} for k, v in sorted(cov.items())][:6]
+        return r
+    return f
+
+
+ANCHORS = {}
+for _line in open(os.path.join(os.path.dirname(os.path.abspath(__file__)), "..", "properties.jsonl")):
+    _p = json.loads(_line)
+    ANCHORS[_p["id"]] = [f.split("src/", 1)[1] if "src/" in f else f for f in _p["anchors"].get("files", [])]
+
+
+def with_thorough_extras(base, asan_scale=None, cov_scale=0.05):
+    def f(env):
+        ls = base(env)
+        if not env.quick():
+            if asan_scale:
+                ls.append(asan_layer(env, asan_scale))
+            ls.append(coverage_layer(env, cov_scale, ANCHORS.get(env.prop, [])))
+        return ls
+    return f
+
+
+for _pid, _asan in (("C01", None), ("C02", None), ("C03", 0.02), ("C04", 0.02), ("C05", 0.01), ("C06", 0.01), ("C07", 0.02), ("C08", 0.02), ("C09", 0.02), ("C11", None), ("C12", 0.02), ("C13", 0.02), ("C14", 0.02), ("C16", None), ("C17", 0.01), ("C18", 0.02), ("C20", 0.2)):
+    PROPS[_pid]["layers"] = with_thorough_extras(PROPS[_pid]["layers"], _asan)
